@@ -34,7 +34,7 @@ pub struct Offer {
 
 impl Offer {
     pub fn large() -> Offer {
-        Offer { cap: 1 << 14, kind: K_SLICE, fill: 0, phase: 0, dst_off: 0, src_off: 0, query: false, pipe_cut: 0, pipe_hold: 0 }
+        Offer { cap: if crate::gen::tiny() { 96 } else { 1 << 14 }, kind: K_SLICE, fill: 0, phase: 0, dst_off: 0, src_off: 0, query: false, pipe_cut: 0, pipe_hold: 0 }
     }
 }
 
@@ -185,14 +185,14 @@ impl<'a> PrngSource<'a> {
             1 => min + self.rng.below(4),
             2 => self.draw_threshold(min),
             3 => self.rng.range(min, min + 20),
-            4 => self.rng.range(64, 300) + 4 * v.pending,
+            4 => (if crate::gen::tiny() { self.rng.range(24, 64) } else { self.rng.range(64, 300) }) + 4 * v.pending,
             _ => match self.rng.below(6) {
                 0 => min,
                 1 => min + self.rng.below(4),
                 2 => self.draw_threshold(min),
                 3 => self.rng.range(min, min + 20),
                 4 => self.rng.range(min, 64 + 2 * v.pending),
-                _ => self.rng.range(64, 300) + 4 * v.pending,
+                _ => (if crate::gen::tiny() { self.rng.range(24, 64) } else { self.rng.range(64, 300) }) + 4 * v.pending,
             },
         };
         let kind = self.rng.pick(&self.profile.kinds);
